@@ -628,6 +628,15 @@ func runC14R3(c *Ctx, r *Rep) {
 	widths := map[string]string{}
 	ast.Inspect(rd.Body, func(n ast.Node) bool {
 		switch x := n.(type) {
+		case *ast.IndexExpr:
+			// the single-character escapes held in a read-only table literal: its keys are the letters decoded
+			if tl := tableLiteral(c, pr.TypesInfo, x.X); tl != nil {
+				for _, en := range tl.entries {
+					if tv, ok := tl.info.Types[en.key]; ok && tv.Value != nil && tv.Value.Kind() == constant.Int {
+						labels[string(rune(mustInt(tv.Value)))] = true
+					}
+				}
+			}
 		case *ast.CaseClause:
 			for _, e := range x.List {
 				if tv, ok := pr.TypesInfo.Types[e]; ok && tv.Value != nil && tv.Value.Kind() == constant.Int {
